@@ -26,7 +26,7 @@ import p_schema as PS
 import translate_re as TR
 from codec import M, sansldap
 
-LEAN_TARGETS = ["Verif.Props.C18", "Verif.Props.C18Filter", "Verif.Props.C18Steps", "Verif.Props.C18Recv", "Verif.Props.C18Decode", "Verif.Props.C18Schema",
+LEAN_TARGETS = ["Verif.Props.C18", "Verif.Props.C18Filter", "Verif.Props.C18Steps", "Verif.Props.C18Recv", "Verif.Props.C18Decode", "Verif.Props.C18Schema", "Verif.Props.C18Msg",
                 "Verif.Props.TiesSchema", "Verif.Props.SmallMore"]
 LEVEL = "proof"
 ASSUMPTIONS = [
@@ -479,10 +479,27 @@ def run(ctx):
                                       "lines than the model's own steps + 60)", "detail": l})
         elif p_.returncode != 0:
             hist["schema-steps:could-not-run"] = 1
+        # (6) the step-counting model of decoding one message (Model/MsgSteps.lean, Props/C18Msg.lean: steps <= 18(n+1), same result) against
+        # unpack_ldap_message: same outcome class, executed source lines <= 12 * model steps + 100 on growing families and malformed variants
+        p_ = subprocess.run([sys.executable, os.path.join(os.path.dirname(os.path.abspath(__file__)), "p_msg_steps.py"), "--seed", str(ctx.seed + 18)]
+                            + ([] if ctx.tier == "thorough" else ["--quick"]), capture_output=True, text=True, timeout=1800)
+        try:
+            rep_ = json.loads(p_.stdout[p_.stdout.index("{"):])
+            hist["msg-steps:cases"] = rep_["cases"]
+            hist["msg-steps:worst lines/steps x1000"] = int(rep_["max_lines_minus_const_per_model_step"] * 1000)
+            evaluations += rep_["cases"]
+            for v_ in rep_["violations"][:3]:
+                disagreements.append({"what": "decoding one message executes more source lines than 12 x the step-counting model's steps + 100", **v_})
+            for v_ in rep_["outcome_mismatches"][:3]:
+                disagreements.append({"what": "unpack_ldap_message and the step-counting decoder model differ in outcome class", **v_})
+        except Exception:  # noqa: BLE001
+            hist["msg-steps:could-not-run"] = 1
     return {
         "evaluations": evaluations,
         "distinct_nontrivial": len(distinct),
-        "rule": "(5) the schema parsers' post-processing is run under a line tracer on growing families (k names / extensions / values / oids, long strings, "
+        "rule": "(6) unpack_ldap_message is run under a line tracer on growing families (attributes, values, controls, filters deep and wide, referrals, long "
+                "strings, trailing unknown elements) and malformed variants and compared with the step-counting decoder of Model/MsgSteps.lean (same outcome "
+                "class; executed lines <= 12 x steps + 100); (5) the schema parsers' post-processing is run under a line tracer on growing families (k names / extensions / values / oids, long strings, "
                 "invalid tails) and compared with the step-counting model of Model/SchemaCost.lean (same acceptance; executed lines <= own steps + 60); "
                 "(1) every translated pattern is run by the Lean matcher on generated / mutated / random inputs and its first match compared with "
                 "CPython's; (2) pumping candidates (each substring of length 1-4 of generated sentences repeated k=4,7,10 times, tail kept or broken) "
